@@ -104,6 +104,16 @@ CHECKS["C18"] = dict(
         "with Fraction. The float format->parse round trip is a recorded known finding (parser accurate to ~2 ulp, not correctly rounded).",
    technique="TLA+ digit-string model + TLC enumeration of batches replayed into code; exact rational arithmetic for the ulp clause",
    design="6/C18")
+CHECKS["C14"] = dict(
+   text="spec/Dna.tla holds the complement table on ACGTN/acgtn, RevComp with TLC-checked involution, length preservation and the "
+        "'append a letter = prepend its complement' action property, stranded extraction, and the standard genetic code written amino "
+        "acid by amino acid (TLC: 64 codons, one amino acid each; cross-checked against Biopython in every run). MC_C14 makes every "
+        "string of <=3/4 letters over the ten symbols and every concatenation of <=2 codons a state (all 262 144 three-codon "
+        "concatenations on the specification in the thorough tier) and prints reverse complement, every stranded extraction and the "
+        "translation; all are replayed in ASCII, ACGT and ACGTN encodings, singly and in ragged batches with empty rows, upper and lower case.",
+   note=TB + "Letters are compared case-insensitively; Biopython is only used to guard the transcription of the codon table.",
+   technique="TLA+ table-driven definitions checked by TLC; exhaustive small-scope states replayed into code",
+   design="6/C14")
 PENDING = {}
 def main():
     props = [json.loads(l)["id"] for l in open(os.path.join(HERE, "properties.jsonl"))]
